@@ -16,6 +16,12 @@ STRENGTHENED = {
     "C05-agent2": "C05-E2: the command-code capture may be guarded by the event's path only",
     "C06-agent2": "ledger idiom list gained `int.to_bytes` without `signed=`",
     "C10-agent2": "C10-T1 gained the who-may-request-bytes rule (only the primitive walker and consume_bytes)",
+    "C11-agent2": "C11 gained A6 (the memo of encrypted() must be identity-stable; shared with C12-P2)",
+    "C13-agent2": "C13 gained A4 (charge-before-read and threading, shared with C03-R2/R4)",
+    "C14-agent2": "caught from the start by Q1, but for an imprecise reason: Q1 now tracks boolean locals assigned from isinstance tests and kills them when the event variable is re-bound (the stale flag is the defect)",
+    "C15-agent2": "C15 gained F7 (unpaired-digit ValueError exit); T2 no longer flags `for b in buffer` (iteration is iterator-protocol use)",
+    "C17-agent2": "C17-M2 learned the arithmetic row family and requires zero padding to the field width (before: exit 2)",
+    "C19-agent2": "C19-L2: the only raise of convert() must be guarded by `tpm_type is not CommandResponseStream and --in=auto` at top level",
 }
 rows = []
 for m in sorted(glob.glob(os.path.join(os.path.dirname(os.path.dirname(os.path.abspath(__file__))), "seeded", "*", "meta.json"))):
